@@ -1,5 +1,5 @@
 SPECIFICATION Spec
-CONSTANTS Kinds = {"buf", "hmeta", "reply", "rawdata", "geninfo", "cxxref", "bare"}
+CONSTANTS Kinds = {"buf", "hmeta", "rawdata", "geninfo", "cxxref", "bare"}
   NH = 3 NObj = 3 Max = 4 MaxExtra = 1 MaxTries = 2 AsFound = FALSE
 CONSTRAINT QuickBound
 VIEW View
